@@ -37,7 +37,7 @@ type Meta struct {
 func NewSqliteDb(dbFile string, rootID string) (*DbSqlite, error) {
 	ret := &DbSqlite{}
 
-	pragmas := "_pragma=foreign_keys(1)&_pragma=journal_mode(WAL)&_pragma=synchronous(NORMAL)&_pragma=busy_timeout(8000)&_pragma=journal_size_limit(100000000)"
+	pragmas := "_pragma=busy_timeout(8000)&_pragma=foreign_keys(1)&_pragma=journal_mode(WAL)&_pragma=synchronous(NORMAL)&_pragma=journal_size_limit(100000000)"
 
 	dbFileOptions := fmt.Sprintf("%s?%s", dbFile, pragmas)
 
